@@ -338,3 +338,238 @@ class PipelineApplyReset(Contract):
         p.apply(rule)
         bad = [k for k in old if len(getattr(p, k)) != 0 or (k == "field_mappings" and len(p.field_mappings.target_fields) != 0)]
         return f"after ProcessingPipeline.apply on a pipeline without items the per-rule fields {bad} still carry the previous rule's content" if bad else None
+
+
+# ----------------------------------------------------------------------------------------------- class invariant, expressions, apply
+PIPE = "sigma.processing.pipeline"
+CE = "sigma.processing.condition_expressions"
+
+
+@register
+class CheckConditions(Contract):
+    """_check_conditions establishes the class invariant the gates rely on: an expression excludes linking and needs a mapping of
+    conditions; without an expression the linking defaults to `all` and a mapping is flattened to its values; every condition has the
+    expected class - otherwise a Sigma error"""
+    id = "C13.ProcessingItemBase._check_conditions"
+    target = f"{PIPE}:ProcessingItemBase._check_conditions"
+    props = ("C13",)
+    cases = tuple((expr, link, conds) for expr in (True, False) for link in ("none", "any", "all") for conds in ("list", "dict", "other", "list_bad"))
+
+    def args(self, I, case):
+        expr, link, conds = case
+        idx = I.E.index
+        RC = idx.lookup("sigma.processing.conditions.base:RuleProcessingCondition")
+        DC = idx.lookup("sigma.processing.conditions.base:DetectionItemProcessingCondition")
+        good, bad = SObj(RC, {}, lazy=True), SObj(DC, {}, lazy=True)
+        cv = {"list": [good], "dict": {"c1": good}, "other": 5, "list_bad": [good, bad]}[conds]
+        me = SObj(idx.lookup(f"{PIPE}:ProcessingItem"), {"rule_condition_expression": SObj("Expr", {}) if expr else None,
+                                                       "rule_condition_linking": {"none": None, "any": ops.ANY, "all": ops.ALL}[link], "rule_conditions": cv}, lazy=True)
+        return {"self": me, "args": ["rule_condition_expression", "rule_condition_linking", "rule_conditions", ClassRef(RC), "Rule condition"], "case": case, "good": good}
+
+    def post(self, I, inp, r):
+        expr, link, conds = inp["case"]
+        me = inp["self"]
+        c = I.ctx
+        c.require(conds in ("list", "dict") and not (expr and (link != "none" or conds != "dict")), "only well-formed combinations are accepted")
+        if expr:
+            c.require(me.fields["rule_condition_linking"] is None and isinstance(me.fields["rule_conditions"], dict), "with an expression: no linking, conditions stay a mapping")
+        else:
+            want = ops.ALL if link in ("none", "all") else ops.ANY
+            c.require(me.fields["rule_condition_linking"] is want, "without an expression the linking is the configured one, `all` by default")
+            c.require(isinstance(me.fields["rule_conditions"], list) and me.fields["rule_conditions"] == [inp["good"]], "without an expression the conditions are a list (a mapping is flattened to its values)")
+
+    def raises(self, I, inp, exc):
+        expr, link, conds = inp["case"]
+        bad_combo = expr and (link != "none" or conds != "dict")
+        I.ctx.require((exc_is(I, exc, "SigmaPipelineConditionError") and bad_combo) or (exc_is(I, exc, "SigmaTypeError") and conds in ("other", "list_bad") and not bad_combo),
+                      f"SigmaPipelineConditionError for expression + linking / non-mapping, SigmaTypeError for a wrong container or condition class (got {exc_name(exc)})", kind="SAFE")
+
+    def frame_ok(self, I, inp, obj, name):
+        return obj is inp["self"] and name in ("rule_condition_linking", "rule_conditions")
+
+
+class _ExprOp(Contract):
+    props = ("C13",)
+    method = "match"
+    assumed = ["operand expressions are abstract (uninterpreted match results)"]
+
+    def operand(self, I, name):
+        r = {m: I.fresh(f"{name}.{m}", "bool") for m in ("match", "match_detection_item", "match_field_name")}
+        o = SObj("Operand", {m: NativeFn(m, (lambda v: lambda I2, a, k: v)(v)) for m, v in r.items()})
+        o.ghost["r"] = r
+        return o
+
+
+def _mk_binop(clsname, fn, method):
+    class C(_ExprOp):
+        id = f"C13.{clsname}.{method}"
+        target = f"{CE}:BinaryConditionOp.{method}"
+        props = ("C13",)
+
+        def args(self, I):
+            l, r = self.operand(I, "left"), self.operand(I, "right")
+            me = SObj(I.E.index.lookup(f"{CE}:{clsname}"), {"left": l, "right": r}, lazy=True)
+            return {"self": me, "args": [I.fresh("x", "opaque", "Item")], "l": l, "r": r}
+
+        def post(self, I, inp, res):
+            a, b = inp["l"].ghost["r"][method].t, inp["r"].ghost["r"][method].t
+            I.ctx.require(ops.mk_bool_term(ops.truth(I, res)) == (z3.And(a, b) if fn == "and" else z3.Or(a, b)), f"{clsname}.{method} == left {fn} right, each evaluated with the same method")
+
+        def frame_ok(self, I, inp, obj, name):
+            return False
+    C.__name__ = f"E_{clsname}_{method}"
+    return C
+
+
+for _c, _f in (("ConditionAND", "and"), ("ConditionOR", "or")):
+    for _m in ("match", "match_detection_item", "match_field_name"):
+        register(_mk_binop(_c, _f, _m))
+
+
+def _mk_not(method):
+    class C(_ExprOp):
+        id = f"C13.ConditionNOT.{method}"
+        target = f"{CE}:ConditionNOT.{method}"
+        props = ("C13",)
+
+        def args(self, I):
+            o = self.operand(I, "operand")
+            me = SObj(I.E.index.lookup(f"{CE}:ConditionNOT"), {"condition": o}, lazy=True)
+            return {"self": me, "args": [I.fresh("x", "opaque", "Item")], "o": o}
+
+        def post(self, I, inp, res):
+            I.ctx.require(ops.mk_bool_term(ops.truth(I, res)) == z3.Not(inp["o"].ghost["r"][method].t), f"ConditionNOT.{method} == not operand")
+
+        def frame_ok(self, I, inp, obj, name):
+            return False
+    C.__name__ = f"E_NOT_{method}"
+    return C
+
+
+for _m in ("match", "match_detection_item", "match_field_name"):
+    register(_mk_not(_m))
+
+
+@register
+class ProcessingItemApply(Contract):
+    """the transformation is applied to the rule iff the rule conditions hold (match_rule_conditions, own contract); result says whether"""
+    id = "C13.ProcessingItem.apply"
+    target = f"{PIPE}:ProcessingItem.apply"
+    props = ("C13",)
+
+    def args(self, I):
+        applied = []
+        g = I.fresh("gate", "bool")
+        rule = I.fresh("rule", "opaque", "Rule")
+        me = SObj(I.E.index.lookup(f"{PIPE}:ProcessingItem"), {"transformation": SObj("T", {"apply": NativeFn("apply", lambda I2, a, k: applied.append(a[0]))})}, lazy=True)
+        I.E.summaries[f"{PIPE}:ProcessingItemBase.match_rule_conditions"] = lambda I2, so, a, k: g
+        return {"self": me, "args": [rule], "g": g, "applied": applied, "rule": rule}
+
+    def post(self, I, inp, r):
+        I.ctx.require(ops.mk_bool_term(ops.truth(I, r)) == inp["g"].t, "returns whether the item applied")
+        I.ctx.require(inp["g"].t == z3.BoolVal(inp["applied"] == [inp["rule"]]), "the transformation is applied (once, to this rule) iff the conditions hold")
+
+    def frame_ok(self, I, inp, obj, name):
+        return False
+
+
+# ----------------------------------------------------------------------------------------------- built-in conditions
+CR = "sigma.processing.conditions.rule"
+CF = "sigma.processing.conditions.fields"
+
+
+class _FieldCond(Contract):
+    props = ("C13",)
+    clsname, negate = None, False
+    cases = (0, 1, 2)
+    assumed = ["plain matching mode; field lists of 0..2 names (unrolled), contents symbolic"]
+
+    def args(self, I, case):
+        fields = [I.fresh(f"name{i}", "str") for i in range(case)]
+        fld = SOpt(z3.Bool(I.ctx.fresh_name("field_none")), I.fresh("field", "str"))
+        me = SObj(I.E.index.lookup(f"{CF}:{self.clsname}"), {"fields": fields, "mode": "plain"}, lazy=True)
+        return {"self": me, "args": [fld], "fields": fields, "fld": fld}
+
+    def post(self, I, inp, r):
+        f = inp["fld"]
+        inlist = z3.And(z3.Not(f.is_none), ops.mk_or([f.val.t == x.t for x in inp["fields"]]))
+        spec = z3.Not(inlist) if self.negate else inlist
+        I.ctx.require(ops.mk_bool_term(ops.truth(I, r)) == spec, ("not " if self.negate else "") + "(field name given and contained in the list)")
+
+    def frame_ok(self, I, inp, obj, name):
+        return False
+
+
+@register
+class IncludeFieldMatch(_FieldCond):
+    id = "C13.IncludeFieldCondition.match_field_name"
+    target = f"{CF}:IncludeFieldCondition.match_field_name"
+    clsname = "IncludeFieldCondition"
+
+
+@register
+class ExcludeFieldMatch(_FieldCond):
+    id = "C13.ExcludeFieldCondition.match_field_name"
+    target = f"{CF}:ExcludeFieldCondition.match_field_name"
+    clsname, negate = "ExcludeFieldCondition", True
+
+
+@register
+class LogsourceConditionMatch(Contract):
+    """a detection rule matches iff its log source is covered by the condition's log source; a correlation rule iff one of the rules it refers to does"""
+    id = "C13.LogsourceCondition.match"
+    target = f"{CR}:LogsourceCondition.match"
+    props = ("C13",)
+    cases = ("rule", "corr0", "corr2", "corr_unresolved")
+    assumed = ["SigmaLogSource.__contains__ contract (C11)"]
+
+    def setup(self, E):
+        from .c11 import covers
+        E.summaries["sigma.rule.logsource:SigmaLogSource.__contains__"] = lambda I, so, a, k: Sym(covers(so, a[0]), "bool")
+
+    def args(self, I, case):
+        from .c11 import mk_logsource
+        idx = I.E.index
+        R, C = idx.lookup("sigma.rule.rule:SigmaRule"), idx.lookup("sigma.correlations:SigmaCorrelationRule")
+        me = SObj(idx.lookup(f"{CR}:LogsourceCondition"), {"logsource": mk_logsource(I, "cond")}, lazy=True)
+        if case == "rule":
+            rules = [SObj(R, {"logsource": mk_logsource(I, "r")}, lazy=True)]
+            arg = rules[0]
+        else:
+            rules = [SObj(R, {"logsource": mk_logsource(I, f"r{i}")}, lazy=True) for i in range({"corr0": 0, "corr2": 2, "corr_unresolved": 1}[case])]
+            refs = [SObj("Ref", {"rule": r} if case != "corr_unresolved" else {}) for r in rules]
+            for x in refs:
+                x.ghost["closed"] = True
+            arg = SObj(C, {"referenced_rules": refs}, lazy=True)
+        return {"self": me, "args": [arg], "rules": rules, "case": case}
+
+    def post(self, I, inp, r):
+        from .c11 import covers
+        me = inp["self"]
+        if inp["case"] == "corr_unresolved":
+            spec = z3.BoolVal(False)
+        else:
+            spec = ops.mk_or([covers(me.fields["logsource"], x.fields["logsource"]) for x in inp["rules"]])
+        I.ctx.require(ops.mk_bool_term(ops.truth(I, r)) == spec, "matches iff (one of) the rule's log source(s) is covered by the condition's log source")
+
+    def frame_ok(self, I, inp, obj, name):
+        return False
+
+
+@register
+class IsRuleKind(Contract):
+    id = "C13.IsSigmaRuleCondition.match"
+    target = f"{CR}:IsSigmaRuleCondition.match"
+    props = ("C13",)
+    cases = ("rule", "corr")
+
+    def args(self, I, case):
+        idx = I.E.index
+        rule = SObj(idx.lookup("sigma.rule.rule:SigmaRule") if case == "rule" else idx.lookup("sigma.correlations:SigmaCorrelationRule"), {}, lazy=True)
+        return {"self": SObj(idx.lookup(f"{CR}:IsSigmaRuleCondition"), {}, lazy=True), "args": [rule], "case": case}
+
+    def post(self, I, inp, r):
+        I.ctx.require(ops.truth(I, r) is (inp["case"] == "rule"), "true exactly for detection rules")
+
+    def frame_ok(self, I, inp, obj, name):
+        return False
